@@ -198,4 +198,169 @@ theorem countP_le_sorted_ge (s : List V) (k : Nat) (t : V)
     _ ≤ s.countP (fun d => leV d t) :=
       List.Sublist.countP_le (List.take_sublist _ _)
 
+
+
+theorem pySlice_range_map {α : Type} (n : Nat) (g : Nat → α) (lo hi : Int)
+    (h0 : 0 ≤ lo) (h1 : lo ≤ hi) (h2 : hi ≤ n) :
+    pySlice ((List.range n).map g) lo hi
+      = (List.range (hi - lo).toNat).map (fun i => g (lo.toNat + i)) := by
+  apply List.ext_getElem?
+  intro i
+  have ha : pyBound lo n = lo.toNat := by unfold pyBound; split <;> omega
+  have hb : pyBound hi n = hi.toNat := by unfold pyBound; split <;> omega
+  simp only [pySlice, List.length_map, List.length_range, ha, hb, List.getElem?_take,
+    List.getElem?_drop, List.getElem?_map]
+  by_cases hi' : i < hi.toNat - lo.toNat
+  · have e1 : (List.range n)[lo.toNat + i]? = some (lo.toNat + i) :=
+      List.getElem?_range (by omega)
+    have e2 : (List.range (hi - lo).toNat)[i]? = some i := List.getElem?_range (by omega)
+    simp [hi', e1, e2]
+  · have e2 : (List.range (hi - lo).toNat)[i]? = none := by
+      apply List.getElem?_eq_none; simp; omega
+    simp [hi', e2]
+
+theorem slice2_tab {α : Type} (n : Nat) (f : Nat → Nat → α) (lo hi : Int)
+    (h0 : 0 ≤ lo) (h1 : lo ≤ hi) (h2 : hi ≤ n) :
+    slice2 (tab n n f) lo hi lo hi
+      = tab (hi - lo).toNat (hi - lo).toNat (fun i j => f (lo.toNat + i) (lo.toNat + j)) := by
+  unfold slice2 tab
+  rw [pySlice_range_map n _ lo hi h0 h1 h2, List.map_map]
+  apply List.map_congr_left
+  intro i _
+  simp only [Function.comp]
+  exact pySlice_range_map n _ lo hi h0 h1 h2
+
+theorem hadamard_tab (n m : Nat) (f g : Nat → Nat → Bool) :
+    hadamard (tab n m f) (tab n m g) = some (tab n m fun i j => f i j && g i j) := by
+  have hlen : (List.map List.length (tab n m f)) = (List.map List.length (tab n m g)) := by
+    simp [tab, List.map_map, Function.comp_def]
+  unfold hadamard
+  rw [if_pos ⟨by simp [tab], hlen⟩]
+  congr 1
+  simp only [tab]
+  apply List.ext_getElem?
+  intro i
+  by_cases hi : i < n
+  · simp [List.getElem?_zipWith, List.getElem?_range hi]
+  · simp [List.getElem?_zipWith, List.getElem?_eq_none (show (List.range n).length ≤ i by simp; omega)]
+
+theorem threshold_tab (n m : Nat) (f : Nat → Nat → V) (t : V) :
+    threshold (tab n m f) t = tab n m fun i j => ltV (f i j) t := by
+  simp [threshold, tab, List.map_map, Function.comp_def]
+
+
+
+
+/-- state `l` is linked to its `k`-th nearest neighbour `sn[l][k]` -/
+def linked (R : BM) (sn : List (List Nat)) (l k : Nat) : Prop :=
+  ∃ snl c, sn[l]? = some snl ∧ snl[k]? = some c ∧ R l c = true
+
+theorem setSym_mono (R : BM) (l c a b : Nat) (h : R a b = true) : setSym R l c a b = true := by
+  simp [setSym, h]
+
+theorem adaptStep_mono (n : Nat) (sn : List (List Nat)) (i : Nat) (R R' : BM) (l : Nat)
+    (h : adaptStep n sn i R l = some R') (a b : Nat) (hab : R a b = true) : R' a b = true := by
+  unfold adaptStep at h
+  split at h
+  · cases h
+  · split at h
+    · cases h
+    · injection h with h; rw [← h]; exact hab
+    · split at h
+      · cases h
+      · split at h
+        · injection h with h; rw [← h]; exact setSym_mono R _ _ a b hab
+        · cases h
+
+theorem linked_mono (R R' : BM) (sn : List (List Nat)) (l k : Nat)
+    (hm : ∀ a b, R a b = true → R' a b = true) (h : linked R sn l k) : linked R' sn l k := by
+  obtain ⟨snl, c, h1, h2, h3⟩ := h
+  exact ⟨snl, c, h1, h2, hm _ _ h3⟩
+
+/-- the step of round `i` for state `l` leaves `l` linked to its `(i+1)`-th neighbour -/
+theorem adaptStep_links (n : Nat) (sn : List (List Nat)) (i : Nat) (R R' : BM) (l : Nat)
+    (hi : i + 1 < n) (h : adaptStep n sn i R l = some R') : linked R' sn l (i + 1) := by
+  have hmono := adaptStep_mono n sn i R R' l h
+  unfold adaptStep at h
+  cases hsn : sn[l]? with
+  | none => simp [hsn] at h
+  | some snl =>
+    simp only [hsn] at h
+    obtain ⟨m, rfl⟩ : ∃ m, n = m + 1 := ⟨n - 1, by omega⟩
+    unfold findFree at h
+    simp only [hi, if_true] at h
+    cases hc : snl[i + 1]? with
+    | none => simp [hc] at h
+    | some c =>
+      simp only [hc] at h
+      by_cases hR : R l c = true
+      · exact ⟨snl, c, hsn, hc, hmono _ _ hR⟩
+      · simp only [hR, hc, if_false, Bool.false_eq_true] at h
+        split at h
+        · injection h with h
+          refine ⟨snl, c, hsn, hc, ?_⟩
+          rw [← h]; simp [setSym]
+        · cases h
+
+theorem adaptRound_mono (n : Nat) (sn : List (List Nat)) (i : Nat)
+    (order : List Nat) (R R' : BM) (h : adaptRound n sn order R i = some R') :
+    ∀ a b, R a b = true → R' a b = true := by
+  unfold adaptRound at h
+  induction order generalizing R with
+  | nil => simp at h; subst h; exact fun _ _ h => h
+  | cons l rest ih =>
+    simp only [List.foldlM_cons, Option.bind_eq_bind] at h
+    cases hs : adaptStep n sn i R l with
+    | none => simp [hs] at h
+    | some R1 =>
+      simp only [hs, Option.bind_some] at h
+      exact fun a b hab => ih R1 h a b (adaptStep_mono n sn i R R1 l hs a b hab)
+
+theorem adaptRound_links (n : Nat) (sn : List (List Nat)) (i : Nat) (hi : i + 1 < n)
+    (order : List Nat) (R R' : BM) (h : adaptRound n sn order R i = some R') :
+    ∀ l ∈ order, linked R' sn l (i + 1) := by
+  induction order generalizing R with
+  | nil => simp
+  | cons l rest ih =>
+    have h' := h
+    unfold adaptRound at h
+    simp only [List.foldlM_cons, Option.bind_eq_bind] at h
+    cases hs : adaptStep n sn i R l with
+    | none => simp [hs] at h
+    | some R1 =>
+      simp only [hs, Option.bind_some] at h
+      have hrest : adaptRound n sn rest R1 i = some R' := h
+      intro l' hl'
+      rcases List.mem_cons.mp hl' with rfl | hmem
+      · exact linked_mono R1 R' sn _ _ (adaptRound_mono n sn i rest R1 R' hrest)
+          (adaptStep_links n sn i R R1 _ hi hs)
+      · exact ih R1 hrest l' hmem
+
+/-- rounds `0 … kA−1` -/
+theorem adaptive_rounds (n : Nat) (sn : List (List Nat)) (order : List Nat) (kA : Nat) (R0 R : BM)
+    (h : (List.range kA).foldlM (adaptRound n sn order) R0 = some R) :
+    ∀ l ∈ order, ∀ k, 1 ≤ k → k ≤ kA → k < n → linked R sn l k := by
+  induction kA generalizing R with
+  | zero => intro l _ k h1 h2; omega
+  | succ kA ih =>
+    rw [List.range_succ, List.foldlM_append] at h
+    simp only [Option.bind_eq_bind, List.foldlM_cons, List.foldlM_nil] at h
+    cases hprev : (List.range kA).foldlM (adaptRound n sn order) R0 with
+    | none => simp [hprev] at h
+    | some R1 =>
+      simp only [hprev, Option.bind_some] at h
+      cases hr : adaptRound n sn order R1 kA with
+      | none => simp [hr] at h
+      | some R2 =>
+        simp [hr] at h
+        subst h
+        intro l hl k h1 h2 h3
+        by_cases hk : k ≤ kA
+        · exact linked_mono R1 R2 sn l k (adaptRound_mono n sn kA order R1 R2 hr)
+            (ih R1 hprev l hl k h1 hk h3)
+        · have : k = kA + 1 := by omega
+          subst this
+          exact adaptRound_links n sn kA h3 order R1 R2 hr l hl
+
+
 end Pyunicorn.Recurrence
